@@ -18,7 +18,7 @@ import (
 func init() {
 	Registry["C13"] = RunC13
 	Metas["C13"] = Meta{
-		Rule:           "episode = 20..200 reader ops (Peek/Skip/ReadByte/ReadBinary/Read small+large/Release/Len) and writer ops (Malloc/WriteBinary copy+zero-copy/Flush/Write/ReadFrom) on the real standard.Conn over a SimConn; inbound stream fragmented by the seeded scheduler (1B..20KiB, buffer-edge biased), FIN at any offset, EOF delivered with data, read-deadline expiry then continuation, peer accepting writes in pieces (backpressure), write error at a flush; sizes around 1/4095/4096/4097/8192/512KiB; initial buffers 4096/8192/65536. Oracle: byte-queue model stepped op by op. Non-trivial: >= 2 fragments and >= 10 ops; distinct = abstract signature (op kinds x size buckets x fragment buckets x faults). Added later: slices returned by ReadBinary are overwritten by the harness and must stay so (ownership); one episode in four drives network.NewWriter (Malloc / WriteBinary copy+link / Flush) over a sink with injected write errors and short writes against the concatenation model.",
+		Rule:           "episode = 20..200 reader ops (Peek/Skip/ReadByte/ReadBinary/Read small+large/Release/Len) and writer ops (Malloc/WriteBinary copy+zero-copy/Flush/Write/ReadFrom) on the real standard.Conn over a SimConn; inbound stream fragmented by the seeded scheduler (1B..20KiB, buffer-edge biased), FIN at any offset, EOF delivered with data, read-deadline expiry then continuation, peer accepting writes in pieces (backpressure), write error at a flush; sizes around 1/4095/4096/4097/8192/512KiB; initial buffers 4096/8192/65536. Oracle: byte-queue model stepped op by op. Non-trivial: >= 2 fragments and >= 10 ops; distinct = abstract signature (op kinds x size buckets x fragment buckets x faults). Added later: slices returned by ReadBinary are overwritten by the harness and must stay so (ownership); one episode in four drives network.NewWriter (Malloc / WriteBinary copy+link / Flush) over a sink with injected write errors and short writes against the concatenation model. Later still: the application goes on using zero-copy buffers it got back at earlier flushes.",
 		Real:           []string{"standard.Conn: fill/Peek/peekBuffer/Skip/Release/handleTail/next/Read/ReadByte/ReadBinary/Malloc/WriteBinary/Flush/Write/ReadFrom", "linkBuffer nodes, mcache"},
 		Stub:           []string{"TCP (SimConn)", "clock (synctest)"},
 		Assumptions:    []string{"Read() on the connection releases earlier peeked slices (it calls Release internally); the peek-stability oracle treats it as a release point"},
